@@ -35,8 +35,11 @@ AllObs == {"tracker:port", "tracker:noport", "webseed",
            "peer:version", "peer:port", "peer:dhtport", "peer:ipv6",
            "incoming:accepted", "incoming:refused"}
 
-VARIABLES started, proxy, conf, due, wanted, out, last
-vars == <<started, proxy, conf, due, wanted, out, last>>
+VARIABLES started, proxy, kind, conf, due, wanted, out, last
+vars == <<started, proxy, kind, conf, due, wanted, out, last>>
+\* kind: the scheme of the torrent's tracker.  A UDP tracker cannot be reached through the (SOCKS) proxy: tracker/udp.go
+\* asks the proxy dialer for a UDP connection, which it refuses, so a proxied torrent never contacts it.
+Kinds == {"http", "udp"}
 
 \* what announce() (tor.go:124) lets out for one address family
 DhtOut(c, px, fam) == IF c.dht = "none" THEN {}
@@ -46,50 +49,50 @@ DhtBoth(c, px) == DhtOut(c, px, "dht4") \cup DhtOut(c, px, "dht6")
 \* what the first web-seed opportunity lets out
 WsOut(c, w) == IF c.ws /\ w THEN {"webseed"} ELSE {}
 
-Init == /\ started = FALSE /\ proxy \in BOOLEAN /\ conf \in Confs   \* conf: the global defaults
+Init == /\ started = FALSE /\ proxy \in BOOLEAN /\ kind \in Kinds /\ conf \in Confs   \* conf: the global defaults
         /\ due = TRUE /\ wanted = FALSE /\ out = {} /\ last = [a |-> "init"]
 
 Start == /\ ~started /\ started' = TRUE
          /\ out' = DhtBoth(conf, proxy)
          /\ last' = [a |-> "Start"]
-         /\ UNCHANGED <<proxy, conf, due, wanted>>
+         /\ UNCHANGED <<proxy, kind, conf, due, wanted>>
 
 SetConf(c) == /\ started /\ conf' = c
               /\ out' = (IF Rank(conf.dht) < Rank(c.dht) THEN DhtBoth(c, proxy) ELSE {}) \cup WsOut(c, wanted)
               /\ wanted' = (wanted /\ ~c.ws)
               /\ last' = [a |-> "SetConf", c |-> c]
-              /\ UNCHANGED <<started, proxy, due>>
+              /\ UNCHANGED <<started, proxy, kind, due>>
 
 DhtEvent(fam) == /\ started /\ out' = DhtOut(conf, proxy, fam)
                  /\ last' = [a |-> "DhtEvent", fam |-> fam]
-                 /\ UNCHANGED <<started, proxy, conf, due, wanted>>
+                 /\ UNCHANGED <<started, proxy, kind, conf, due, wanted>>
 
 TrackerDue == /\ started /\ ~due /\ due' = TRUE /\ out' = {} /\ last' = [a |-> "TrackerDue"]
-              /\ UNCHANGED <<started, proxy, conf, wanted>>
+              /\ UNCHANGED <<started, proxy, kind, conf, wanted>>
 
 Tick == /\ started
         /\ IF conf.trk /\ due
-           THEN out' = {IF proxy THEN "tracker:noport" ELSE "tracker:port"} /\ due' = FALSE
+           THEN out' = (IF proxy THEN (IF kind = "udp" THEN {} ELSE {"tracker:noport"}) ELSE {"tracker:port"}) /\ due' = FALSE
            ELSE out' = {} /\ due' = due
         /\ last' = [a |-> "Tick"]
-        /\ UNCHANGED <<started, proxy, conf, wanted>>
+        /\ UNCHANGED <<started, proxy, kind, conf, wanted>>
 
 Want == /\ started
         /\ out' = WsOut(conf, TRUE)
         /\ wanted' = ~conf.ws
         /\ last' = [a |-> "Want"]
-        /\ UNCHANGED <<started, proxy, conf, due>>
+        /\ UNCHANGED <<started, proxy, kind, conf, due>>
 
 Incoming == /\ started
             /\ out' = IF proxy THEN {"incoming:refused"}
                       ELSE {"incoming:accepted", "peer:version", "peer:port", "peer:dhtport"}
             /\ last' = [a |-> "Incoming"]
-            /\ UNCHANGED <<started, proxy, conf, due, wanted>>
+            /\ UNCHANGED <<started, proxy, kind, conf, due, wanted>>
 
 Outgoing == /\ started
             /\ out' = IF proxy THEN {} ELSE {"peer:version", "peer:port", "peer:dhtport"}
             /\ last' = [a |-> "Outgoing"]
-            /\ UNCHANGED <<started, proxy, conf, due, wanted>>
+            /\ UNCHANGED <<started, proxy, kind, conf, due, wanted>>
 
 Next == Start \/ (\E c \in Confs : SetConf(c)) \/ DhtEvent("dht4") \/ DhtEvent("dht6")
         \/ TrackerDue \/ Tick \/ Want \/ Incoming \/ Outgoing
@@ -108,11 +111,11 @@ Allowed(o, c, px) ==
     [] OTHER -> TRUE
 Forbidden(c, px) == {o \in AllObs : ~Allowed(o, c, px)}
 
-TypeOK == /\ started \in BOOLEAN /\ proxy \in BOOLEAN /\ conf \in Confs /\ due \in BOOLEAN /\ wanted \in BOOLEAN
+TypeOK == /\ started \in BOOLEAN /\ proxy \in BOOLEAN /\ kind \in Kinds /\ conf \in Confs /\ due \in BOOLEAN /\ wanted \in BOOLEAN
           /\ out \subseteq AllObs
 PrivacyInv == out \cap Forbidden(conf, proxy) = {}
 \* a wanted piece stays outstanding only while web seeds are off (no starvation once they are on)
 WantedOnlyWhenOff == wanted => ~conf.ws
 \* the proxy flag never changes
-ProxyFixed == [][proxy' = proxy]_vars
+ProxyFixed == [][proxy' = proxy /\ kind' = kind]_vars
 =============================================================================
